@@ -477,7 +477,8 @@ Definition assert_farm_asset (funds : list coin) (fee asset : coin) : res unit :
   let* sent := of_option (find (fun c => String.eqb (denom_of c) (denom_of asset)) funds) "AssetMismatch" in
   if negb (String.eqb (denom_of fee) (denom_of asset)) then
     let* _ := ensure (amount_of sent =? amount_of asset) "AssetMismatch" in
-    ensure (Nat.eqb (List.length funds) 2) "AssetMismatch"
+    (* two coins (asset + fee); a single coin when no fee is due *)
+    ensure (Nat.eqb (List.length funds) (if amount_of fee =? 0 then 1 else 2)) "AssetMismatch"
   else
     let* t := cadd U128_MAX (amount_of asset) (amount_of fee) in
     let* _ := ensure (t =? amount_of sent) "AssetMismatch" in
